@@ -221,6 +221,17 @@ pub fn unit_of(u: &UnitS) -> Unit {
     match u { UnitS::None => Unit::None, UnitS::Named(u) => *u }
 }
 
+/// `Emf::all_validations` / `Emf::no_validations` take no further options: a configuration with extra namespaces,
+/// directives, a log group or ignored dimensions can only be built through the builder chain.
+pub fn effective_ctor(cfg: &Config) -> Ctor {
+    let plain = cfg.namespaces.len() == 1 && cfg.directives.is_empty() && cfg.log_group.is_none() && !cfg.allow_ignored;
+    match cfg.ctor {
+        Ctor::AllValidations if !plain => Ctor::Builder,
+        Ctor::NoValidations if !plain => Ctor::BuilderSkip(true),
+        c => c,
+    }
+}
+
 pub fn build(cfg: &Config) -> Formatter {
     let ns0 = cfg.namespaces[0].clone();
     let dd = cfg.default_dims.clone();
@@ -246,14 +257,11 @@ pub fn build(cfg: &Config) -> Formatter {
         }
         b.allow_ignored_dimensions(cfg.allow_ignored)
     };
-    let plain = cfg.namespaces.len() == 1 && cfg.directives.is_empty() && cfg.log_group.is_none() && !cfg.allow_ignored;
-    let emf = match cfg.ctor {
-        Ctor::AllValidations if plain => Emf::all_validations(ns0, dd),
-        Ctor::NoValidations if plain => Emf::no_validations(ns0, dd),
-        // the documented constructors take no further options; with options the equivalent builder chain is used
-        Ctor::AllValidations | Ctor::Builder => extend(Emf::builder(ns0, dd)).build(),
+    let emf = match effective_ctor(cfg) {
+        Ctor::AllValidations => Emf::all_validations(ns0, dd),
+        Ctor::NoValidations => Emf::no_validations(ns0, dd),
+        Ctor::Builder => extend(Emf::builder(ns0, dd)).build(),
         Ctor::BuilderSkip(b) => extend(Emf::builder(ns0, dd)).skip_all_validations(b).build(),
-        Ctor::NoValidations => extend(Emf::builder(ns0, dd)).skip_all_validations(true).build(),
     };
     emf.with_sampling_and_rng(ScriptedRng)
 }
@@ -460,7 +468,7 @@ pub fn enc_item(i: &Item) -> Sx {
     }
 }
 pub fn enc_config(c: &Config) -> Sx {
-    let (code, b) = match c.ctor { Ctor::AllValidations => (0, false), Ctor::Builder => (1, false), Ctor::BuilderSkip(b) => (2, b), Ctor::NoValidations => (3, false) };
+    let (code, b) = match effective_ctor(c) { Ctor::AllValidations => (0, false), Ctor::Builder => (1, false), Ctor::BuilderSkip(b) => (2, b), Ctor::NoValidations => (3, false) };
     Sx::L(vec![
         Sx::L(vec![sx::n(code as u8), sx::boolean(b), sx::boolean(cfg!(debug_assertions))]),
         strs(&c.namespaces),
